@@ -250,3 +250,15 @@ def t_can_be_closed(world):
 _t16e = tasks
 def tasks(tier):
     return _t16e(tier) + [('can_be_closed', t_can_be_closed)]
+
+
+
+# ---------------------------------------------------------------- shared with C04.i: how the risk engine pairs positions with the bank / oracle accounts it is handed (a substituted or shifted account is rejected)
+def t_load_pairing_shared(world):
+    import specs.C04 as C04
+    return C04.t_load_pairing(world, 'C16.j')
+
+
+_t_lps = tasks
+def tasks(tier):
+    return _t_lps(tier) + [('load_pairing', t_load_pairing_shared)]
